@@ -241,7 +241,13 @@ fn test(k: usize, shape: usize, cap: usize, flow: usize) -> Vec<FnDecl> {
                 Expr::Block(vec![Stmt::Let(Pat::Var("mkr".into()), Some(mkr_ty.clone()), recv)], Some(Box::new(Expr::MethodCall { recv: Box::new(var("mkr")), method: "make".into(), args: vec![var("a"), var("b")] })))
             }
         } else {
-            Expr::Call { name: mkname.clone(), targs: vec![], args: vec![var("a"), var("b")] }
+            // the helper is called by name or through a let-bound function value (a closure that returns the helper's
+            // closure is outside the clean lattice: closure values in function-typed positions; the result - a closure or a tuple / struct holding closures - must keep its type on
+            // every route; added after a seeded change that typed calls through function values by the callee's name)
+            match (k + flow + shape) % 2 {
+                0 => Expr::Call { name: mkname.clone(), targs: vec![], args: vec![var("a"), var("b")] },
+                _ => Expr::Block(vec![let_("mkv", Expr::FnRef(mkname.clone()))], Some(Box::new(callv(var("mkv"), vec![var("a"), var("b")])))),
+            }
         };
         let pv = |n: &str| Pat::Var(n.into());
         let slot_ty = Ty::Struct(format!("Slot{}", k), vec![fty.clone()]);
@@ -395,7 +401,7 @@ fn run(ctx: &mut Ctx) {
         });
     }
     // random closure-heavy programs
-    let n = tier.pick(120u64, 6_000u64) / ctx.nshards as u64 + 1;
+    let n = tier.pickn(120u64, 6_000u64) / ctx.nshards as u64 + 1;
     let opts2 = DiffOpts { prop: "C08", vet_is_violation: false, budget: 400_000, print: PrintOpts::default() };
     for j in 0..n {
         let mut rng = Rng::keyed(seed, "c08-gen", ctx.shard as u64, j);
